@@ -216,6 +216,26 @@ CHECKS = {
               'checked, not proved); geometry-derived parameters are recomputed numerically by the harness (not a theorem); '
               'the order in which networkx reports placements is not modelled; the modifications attribute is not modelled.'),
         technique='Coq proof (case analysis + lia for the order table, enumeration soundness/completeness, fold invariants for interaction tables) + in-Coq correspondence'),
+    'C01': dict(
+        category='proof',
+        text=('PARTIAL (block mappings; modification mappings are not modelled). Coq theorems about a model of '
+              'Mapping.map + MappingGraphMatcher and of do_mapping / apply_block_mapping / merge_molecule: a mapping is '
+              'placed exactly at the injective assignments where names, residue names, bonds among matched atoms (present '
+              'and absent) and same-residue parity of bonds agree; processing order is ascending lowest atom key and a '
+              'rearrangement of the placements found; every placement yields exactly one copy of its block in that order '
+              'on consecutive keys; residues of one-residue blocks are numbered 1,2,3,... (in general: offset by the last '
+              'particle); each particle records exactly the atoms and weights its own placement assigns to it, whatever '
+              'comes before or after (fresh-key invariant); particles of different placements are connected exactly through '
+              'bonded constituent atoms; the unmapped-atom warning is raised iff a non-hydrogen atom belongs to no placement; '
+              'the overlap warning iff two placements share an atom. Tie: real Mapping.map (set of placements) and real '
+              'do_mapping with log capture on generated molecules and mapping sets; output compared with the model, and the '
+              'statement evaluated DIRECTLY (no incremental tables) in Coq on the real output.'),
+        design_ref='DESIGN.md section 5, C01',
+        note=('Trusted: Coq kernel + vm_compute; networkx VF2 replaced by exhaustive enumeration (agreement checked per case); '
+              'modification mappings, references, attribute_must, the disconnected / garbage-attribute warnings are outside the model; '
+              'multi-residue blocks whose last particle is not in the last residue are numbered as merge_molecule does (offset '
+              'by the last particle), consecutive numbering is proved for one-residue blocks only.'),
+        technique='Coq proof (enumeration soundness/completeness, fold invariants with fresh-key argument, insertion-sort order) + in-Coq correspondence + direct statement checker'),
 }
 NOT_APPLICABLE = {}
 PENDING_REASON = 'not yet claimed: model and proofs for this property are still being built (see DESIGN.md staging); no check is registered so nothing is asserted'
